@@ -138,7 +138,7 @@ theorem runs_on_loop_thread (s : St) (i : LoopInp) (hne : (loopStep s i).log ≠
     dsimp only
     split
     · rfl
-    · exact (dispatchAll_frame i.events _).2
+    · exact (dispatchAll_frame (if i.pollErr = true then [] else i.events) _).2
   · exact absurd rfl hne
   · exact absurd rfl hne
 
